@@ -1,27 +1,10 @@
-import RSocketModel.Routing
+import RSocketModel.Proofs.C19Lemmas
 /-!
 # C19 — Routed dispatch is exact and the authentication gate cannot be bypassed
 Property theorems only (decision logic stated outright).
 -/
 namespace RSocketModel.Routing
 open RSocketModel.Composite
-
-/-- whether the gate lets the request through -/
-def gateOpen (verifier : Option (Bytes → Item → Bool)) (route : Bytes) (items : List Item) : Bool :=
-  match verifier with
-  | none => true
-  | some v => match firstAuth items with
-    | none => false
-    | some a => v route a
-
-theorem dispatch_eq (r : Router) (v : Option (Bytes → Item → Bool)) (ty : ReqType) (items : List Item) (route : Bytes)
-    (hr : requireRoute items = some route) :
-    dispatch r v ty (some items) = if gateOpen v route items then routeTo r ty route else .error := by
-  unfold dispatch gateOpen
-  simp only [hr]
-  cases v with
-  | none => simp
-  | some v => cases firstAuth items <;> simp
 
 /-- **exact route**: a request whose gate is open and whose first route tag is registered for its
 interaction type runs exactly that handler -/
